@@ -326,7 +326,7 @@ pub fn seq_case() -> impl Strategy<Value = SeqCase> {
 
 /// small alphabet for the exhaustive part
 fn alphabet() -> Vec<SOp> {
-    let d = |id: u64, val: i64, poison: bool, obs: Vec<(u64, Option<i32>, Option<i32>)>| TrackDesc { id, val, group: 0, poison, obs };
+    let d = |id: u64, val: i64, poison: bool, obs: Vec<(u64, Option<i32>, Option<i32>)>| TrackDesc { id, val, group: 0, poison, obs, reid: None };
     let mut a = vec![
         SOp::AddTrack(d(1, 1, false, vec![(0, Some(3), Some(1))])),
         SOp::AddTrack(d(2, 2, false, vec![(0, Some(5), None), (1, Some(2), Some(2))])),
